@@ -229,7 +229,8 @@ func topicClasses(thorough bool) [][2]string {
 	}
 	if thorough {
 		c = append(c, [2]string{"len255", rep("q", 255)}, [2]string{"len256", rep("q", 256)}, [2]string{"nul", "a\x00b"}, [2]string{"slash", "a/b"},
-			[2]string{"multibyte70bytes", rep("é", 35)}, [2]string{"multibyte36runes", rep("é", 36)}, [2]string{"tab", "a\tb"}, [2]string{"badutf8", "a\xffb"})
+			[2]string{"multibyte70bytes", rep("é", 35)}, [2]string{"multibyte36runes", rep("é", 36)}, [2]string{"tab", "a\tb"}, [2]string{"badutf8", "a\xffb"},
+			[2]string{"multibyte254bytes", rep("é", 127)}, [2]string{"multibyte256bytes", rep("é", 128)}, [2]string{"255runes-3bytes-each", rep("가", 255)})
 	}
 	return c
 }
@@ -536,7 +537,8 @@ func didDomains(e *domEnv, thorough bool) []*msgDom {
 	vmOf := func(d *didtypes.DIDDocument, suffix, typ, key string) *didtypes.VerificationMethod {
 		return &didtypes.VerificationMethod{Id: d.Id + "#" + suffix, Type: typ, Controller: d.Id, PublicKeyBase58: key}
 	}
-	sufC := [][2]string{{"key1", "key1"}, {"empty", ""}, {"len128", rep("k", 128)}, {"len129", rep("k", 129)}, {"space", "a b"}, {"newline", "a\nb"}}
+	sufC := [][2]string{{"key1", "key1"}, {"empty", ""}, {"len128", rep("k", 128)}, {"len129", rep("k", 129)}, {"space", "a b"}, {"newline", "a\nb"},
+		{"second-hash-total129", rep("k", 127) + "#k"}, {"second-hash-space-before", "my key#1"}, {"second-hash-total128", rep("k", 126) + "#k"}}
 	if thorough {
 		sufC = append(sufC, [2]string{"tab", "a\tb"}, [2]string{"len1", "k"}, [2]string{"multibyte128bytes", rep("é", 64)}, [2]string{"multibyte65runes", rep("é", 65)}, [2]string{"hash", "a#b"})
 	}
